@@ -89,4 +89,38 @@ func VfAddressClasses() {
 	vfReach("filters/end")
 }
 
+func vfSymAddr(name string) ma.Multiaddr {
+	var raw []byte
+	if vfBool(name + ".ipv6") {
+		raw = append([]byte{41}, vfBytes(name+".ip6", 16)...)
+	} else {
+		raw = append([]byte{4}, vfBytes(name+".ip4", 4)...)
+	}
+	raw = append(raw, 6, 0x0f, 0xa1) // /tcp/4001
+	if vfBool(name + ".viaRelay") {
+		raw = append(raw, 0xa2, 0x02) // /p2p-circuit
+	}
+	return vfMust(ma.NewMultiaddrBytes(raw))
+}
+
+// VfAddressSets (C15-H2b): a referral with several addresses is followed by
+// the WAN DHT exactly when one of its addresses qualifies on its own (public
+// AND not via a relay - the same address), for every pair of addresses.
+func VfAddressSets() {
+	a, b := vfSymAddr("a"), vfSymAddr("b")
+	one := func(x ma.Multiaddr) bool {
+		return PublicQueryFilter(nil, peer.AddrInfo{ID: peer.ID("x"), Addrs: []ma.Multiaddr{x}})
+	}
+	both := PublicQueryFilter(nil, peer.AddrInfo{ID: peer.ID("x"), Addrs: []ma.Multiaddr{a, b}})
+	vfAssert(both == vfOr(one(a), one(b)), "filters/wan-follows-a-referral-iff-one-address-is-public-and-not-relayed")
+	rev := PublicQueryFilter(nil, peer.AddrInfo{ID: peer.ID("x"), Addrs: []ma.Multiaddr{b, a}})
+	vfAssert(both == rev, "filters/address-order-does-not-matter")
+	wan := ma.FilterAddrs([]ma.Multiaddr{a, b}, manet.IsPublicAddr)
+	na := len(ma.FilterAddrs([]ma.Multiaddr{a}, manet.IsPublicAddr))
+	nb := len(ma.FilterAddrs([]ma.Multiaddr{b}, manet.IsPublicAddr))
+	vfAssert(len(wan) == na+nb, "filters/wan-address-filter-judges-each-address-on-its-own")
+	vfReach("filters/sets-end")
+}
+
 var _ = vfRegister("VfAddressClasses", VfAddressClasses)
+var _ = vfRegister("VfAddressSets", VfAddressSets)
